@@ -69,7 +69,7 @@ CLAIMED = {
  "C13": dict(cat="other", ref="DESIGN.md 4/C13",
    text="extract_wfs_array proved with a loop invariant over the output stack for any number of spikes / channels / samples: wfs[i,c,t] == traces[neighbours[peak_i,c], sample_i - trough + t], padding neighbours read the NaN row, every read in bounds; "
         "write_wfs_chunk: chunk-local offsets for chunk 0 and later chunks address samples [sample-trough, sample-trough+length) of the recording and rows land at waveform_index, with the caller's trough offset and length.",
-   note="Selection of <= max_wf spikes per unit, agreement of table / traces / channels / templates, chunk- and worker-count independence and the loader are a bounded stand-in on generated recordings (joblib threading back end). A-PANDAS; NaN is a token. Known finding F-C13-1 (spike at sample index 0).",
+   note="Selection of <= max_wf spikes per unit, agreement of table / traces / channels / templates, chunk- and worker-count independence and the loader are a bounded stand-in on generated recordings (joblib threading back end). A-PANDAS; NaN is a token. F-C13-1 (spike index 0 dropped) was repaired.",
    tech="AST->z3 VC generation with a stack loop invariant and index-function arrays (deductive) + bounded native stand-in"),
  "C14": dict(cat="other", ref="DESIGN.md 4/C14",
    text="pick_maximum: reported peak == global absolute extremum, first on ties; find_trough at/after the peak and find_tip strictly before it; recovery_point in bounds with last-sample fall-back; "
@@ -79,7 +79,7 @@ CLAIMED = {
  "C18": dict(cat="other", ref="DESIGN.md 4/C18",
    text="fourier.convolve: inverse transform asked for the padded length, 'same' = centred crop for both parities, 'full' length; ns_optim_fft exhaustive over its table; freduce/fexpand mutually inverse on Hermitian spectra for both parities and any axis; "
         "fscale == DFT bin frequencies; lp + hp == 1, bp == hp*lp on the filter vectors; cosine taper monotone in [0,1]; filter broadcast along the requested axis.",
-   note="A-FFT (shapes, linearity; contents opaque), A-MATH (three facts about cos). Equality with direct convolution / FFT on the impulse basis is a bounded stand-in. Known findings F-C18-1 (ns_optim above its table), F-C18-3 (3-D, axis 0).",
+   note="A-FFT (shapes, linearity; contents opaque), A-MATH (three facts about cos). Equality with direct convolution / FFT on the impulse basis is a bounded stand-in. Known finding F-C18-1 (ns_optim above its table); F-C18-3 (3-D, axis 0) was repaired.",
    tech="AST->z3 VC generation with FFT shape/Hermitian specification axioms (deductive) + bounded impulse-basis stand-in"),
  "C05": dict(cat="other", ref="DESIGN.md 4/C05",
    text="car: exactly one channel-axis reduction with the requested operator is subtracted, per-collection == per-group; kfilt/fk recursion over collections forwards every setting; destripe data-flow: high-pass -> fshift by +sample_shift along time -> interpolation -> "
